@@ -51,6 +51,7 @@ func main() {
 	viewFlag := flag.Int("view", 0, "debug: run the rules on this inlining view only")
 	modeFlag := flag.Int("mode", 0, "inlining view for -dump (0 none, 1 new helpers, 2 all same-package functions)")
 	listFuncs := flag.Bool("listfuncs", false, "print the names of all functions of the tree (to regenerate baseline_funcs.txt)")
+	listFields := flag.Bool("listfields", false, "print rel|Type|field|type for every struct field of the tree (to regenerate baseline_fields.txt)")
 	overlayArg := flag.String("overlay", "", "relpath=file: analyse the tree with this file's content in place of relpath (in memory)")
 	patchFile := flag.String("patch", "", "analyse the tree as if this unified diff (paths relative to the tree root, -p1) were applied (in memory, via an overlay; the tree itself is not touched)")
 	genMut := flag.String("genmutants", "", "debug: write the sweep's mutants of -prop into this directory (index.txt lists them)")
@@ -73,6 +74,17 @@ func main() {
 	seed := 0
 	if s := os.Getenv("VERIF_SEED"); s != "" {
 		seed, _ = strconv.Atoi(s)
+	}
+	if *listFields {
+		P, err := Load(LoadOpts{Dir: *repo, Tags: "verif", MinPkgs: 1})
+		if err != nil {
+			fmt.Println("load error:", err)
+			os.Exit(2)
+		}
+		for _, l := range P.ListFields() {
+			fmt.Println(l)
+		}
+		return
 	}
 	if *listFuncs {
 		P, err := Load(LoadOpts{Dir: *repo, Tags: "verif", MinPkgs: 1})
